@@ -276,8 +276,8 @@ def hasElementU (v elem : Value) (elemHash : Option Int) : Res Value :=
         | _, _ => .panic "payload is not a set"
   | _ => .panic "not a set type"
 def hasElement (v elem : Value) (elemHash : Option Int) : Res Value :=
-  if v.isMarked || elem.isMarked then
-    (hasElementU v.unmark elem.unmark elemHash).map (·.withMarks (unionMarks v.marks elem.marks))
+  if v.isMarked || elem.containsMarked then
+    (hasElementU v.unmark elem.unmarkDeep elemHash).map (·.withMarks (unionMarks v.marks elem.marksDeep))
   else hasElementU v elem elemHash
 
 end Value
